@@ -147,8 +147,8 @@ class Table:
     def __init__(self, xs: np.ndarray, vals: np.ndarray):
         self.xs = xs
         self.vals = vals  # (n, R)
-        self.lo = float(xs[0])
-        self.hi = float(xs[-1])
+        self.lo = float(xs[0]) if xs.size else float("nan")
+        self.hi = float(xs[-1]) if xs.size else float("nan")
         self.spline = CubicSpline(xs, vals, axis=0, extrapolate=True) \
             if (xs.size >= 2 and np.all(np.diff(xs) > 0)) else None
 
@@ -224,10 +224,17 @@ class InterpMachine(Machine):
         weights = {op: rng.choice([0, 1, 2, 3]) for op in InterpMachine.OPS}
         weights["evaluate"] = rng.choice([2, 3, 5])
         weights["derivative"] = rng.choice([0, 1, 3])
+        focus = "midcall" if rng.random() < 0.25 else None
+        if focus:
+            # swarm: a quarter of the runs concentrate on adaptive updates that
+            # fire in the middle of a call with one NONE side
+            weights.update(evaluate=6, set_modes=2, adaptive=1, schedule=2, derivative=2,
+                           new_table=1, extend=1, write_read=0, read_missing=0, arm_raise=0)
         return {
-            "R": R, "comps": comps, "bad": bad,
-            "adaptive": rng.random() < 0.6,
-            "threshold": rng.choice([1, 2, 3, 5, 8, 15, 40, 500]),
+            "R": R, "comps": comps, "bad": bad, "focus": focus,
+            "adaptive": True if focus else rng.random() < 0.6,
+            "threshold": rng.choice([2, 3, 5, 8]) if focus else
+            rng.choice([1, 2, 3, 5, 8, 15, 40, 500]),
             "n0": rng.choice([4, 5, 6, 10, 15, 25, 60]),
             "weights": weights,
             "tableFirst": rng.random() < 0.7,
@@ -269,6 +276,7 @@ class InterpMachine(Machine):
         self.modes = ["NONE", "NONE"]
         self.adaptive = cfg["adaptive"]
         self.nFiles = 0
+        self.justUpdated = False
 
     def _newObject(self, adaptive: bool) -> Any:
         obj = self.cls(self.body, self.ctl, adaptive, self.cfg["n0"])
@@ -331,6 +339,8 @@ class InterpMachine(Machine):
         form = rng.choice(["float", "0d", "list", "1d", "1d", "2d", "empty"]
                           if rng.random() < 0.15 else ["float", "0d", "list", "1d", "1d", "2d"])
         place = rng.choice(["inside", "below", "above", "mixed", "mixed", "edge"])
+        if self.justUpdated:
+            place = rng.choice(["below", "above", "mixed", "edge"])
 
         def one() -> float:
             if place == "mixed":
@@ -359,6 +369,9 @@ class InterpMachine(Machine):
             for name in self.OPS:
                 ops += [name] * cfg["weights"][name]
             op = rng.choice(ops)
+            if self.justUpdated and rng.random() < 0.6:
+                # look at the object right after an adaptive update
+                op = rng.choice(["evaluate", "evaluate", "derivative"])
         if op == "new_table":
             a = rng.uniform(-10, 8)
             return {"op": op, "a": a, "b": a + _logu(rng, 0.5, 10.0),
@@ -385,9 +398,14 @@ class InterpMachine(Machine):
                     "pMin": rng.choice([0, 1, 2, 3, 5, 10]),
                     "pMax": rng.choice([0, 1, 2, 3, 5, 10])}
         if op == "set_modes":
+            if cfg.get("focus"):
+                lower, upper = rng.choice([("NONE", "CONSTANT"), ("CONSTANT", "NONE"),
+                                           ("NONE", "FUNCTION"), ("FUNCTION", "NONE"),
+                                           ("NONE", "NONE"), ("NONE", "ERROR")])
+                return {"op": op, "lower": lower, "upper": upper}
             return {"op": op, "lower": rng.choice(MODES), "upper": rng.choice(MODES)}
         if op == "adaptive":
-            return {"op": op, "on": rng.random() < 0.6}
+            return {"op": op, "on": True if cfg.get("focus") else rng.random() < 0.6}
         if op == "schedule":
             form, x, place = self._drawX(rng)
             return {"op": op, "form": form, "x": x, "place": place}
@@ -666,6 +684,7 @@ class InterpMachine(Machine):
     def _adaptiveProbe(self, before: Table | None, after: Table | None) -> None:
         changed = (before is None) != (after is None) or (
             before is not None and not before.same(after))
+        self.justUpdated = changed
         if changed:
             self.ctx.probes["adaptive_update_happened"] += 1
             if before is not None and after is not None:
@@ -773,15 +792,7 @@ class InterpMachine(Machine):
                             f"(R={self.R}); expected {wantShape}")
         gf = got.reshape(xs.size, self.R)
         if changed and order > 0:
-            # an adaptive update moved the table while the stencil was being
-            # evaluated: stencil values may come from an intermediate table that
-            # is neither `before` nor `after`; only shape and finiteness are sound
-            self.ctx.probes["derivative_value_unjudged_midcall_update"] += 1
-            clean = ~self.body.isBad(xs, pad=5 * DX[order])
-            if not np.all(np.isfinite(gf[clean])):
-                raise Violation(f"{what}-contract", f"R={R2}:nonfinite-after-midcall-update",
-                                f"{what} returned non-finite values: {gf.tolist()}")
-            return [what, "unjudged-midcall-update"]
+            return self._judgeMidcallDerivative(what, step, xs, gf, before, after, order, R2)
         okAny = np.zeros(xs.size, dtype=bool)
         worst = None
         for kind, exp, tol, judged in verdicts:
@@ -814,6 +825,63 @@ class InterpMachine(Machine):
         if order == 0 and interp and before is not None and not changed and before.spline:
             self._accuracy(xs, gf, before)
         return [what, got]
+
+    def _judgeMidcallDerivative(self, what: str, step: dict, xs: np.ndarray, gf: np.ndarray,
+                                before: Table | None, after: Table | None, order: int,
+                                R2: int) -> Any:
+        """An adaptive update replaced the table while the finite-difference
+        stencil was being evaluated.  Stencil values then come from the exact
+        function or from the spline of SOME table between `before` and `after`
+        (an intermediate one is possible), so only this is sound:
+          - elements inside the old range were taken from the old spline first;
+          - elements on a NONE side approximate f^(n) up to the finite-difference
+            error plus (interpolation error of the coarsest table) / dx^n;
+          - other elements: finite."""
+        self.ctx.probes["derivative_judged_midcall_update"] += 1
+        body = self.body
+        clean = ~body.isBad(xs, pad=5 * DX[order])
+        if not np.all(np.isfinite(gf[clean])):
+            raise Violation(f"{what}-contract", f"R={R2}:nonfinite-after-midcall-update",
+                            f"{what} returned non-finite values: {gf.tolist()}")
+        interp = bool(step["interp"])
+        mag = body.magnitude(xs)
+        eps = 0.0
+        for tab in (before, after):
+            if tab is not None and tab.xs.size >= 2:
+                eps = max(eps, float(np.max(np.diff(tab.xs))) ** 4 * body.bound(4) + 1e-9 * mag)
+        coefSum = 7.0 if order == 1 else 27.0
+        fdTol = (1e-7 if order == 1 else 1e-5) * (mag + body.bound(5 + order - 1))
+        bound = fdTol + coefSum * eps / DX[order] ** order
+        signal = min(abs(c[0]) * abs(c[1]) ** order for c in body.comps)
+        useTable = interp and before is not None and before.spline is not None
+        for i, x in enumerate(xs):
+            if not clean[i]:
+                continue
+            if useTable and before.lo <= x <= before.hi:
+                want = before.spline.derivative(order)(x).reshape(self.R)
+                tol = 1e-10 * (np.abs(want) + float(np.max(np.abs(before.vals))) + 1e-300)
+                cls = "inside-old-table"
+            else:
+                mode = "NONE" if not useTable else (self.modes[0] if x < before.lo
+                                                     else self.modes[1])
+                if mode != "NONE":
+                    self.ctx.probes["midcall_element_unjudged_mode"] += 1
+                    continue
+                if bound > 0.25 * signal:
+                    self.ctx.probes["midcall_element_bound_vacuous"] += 1
+                    continue
+                want = body.smooth(np.array([x]), order).reshape(self.R)
+                tol = np.full(self.R, bound)
+                cls = "direct-side"
+            err = np.abs(gf[i] - want)
+            self.ctx.margin(f"{what}{order}_midcall", float(np.max(err / tol)))
+            if not np.all(err <= tol):
+                raise Violation(
+                    f"{what}-contract", f"R={R2}:midcall-update:{cls}",
+                    f"{what}(order={order}) element x={x!r} during an adaptive update in "
+                    f"mid-call: got {gf[i].tolist()}, expected {want.tolist()} within "
+                    f"{tol.tolist()} (modes {self.modes})", {"x": step["x"]})
+        return [what, "midcall-update"]
 
     def _elementClass(self, x: float, tab: Table | None) -> str:
         if tab is None:
